@@ -163,14 +163,22 @@ class OpTaint:
                 in_body = any(cur is b for b in anc.body)
                 in_else = any(cur is b for b in anc.orelse)
                 t = anc.test
+                neg = False
+                while isinstance(t, ast.UnaryOp) and isinstance(t.op,
+                                                                ast.Not):
+                    t = t.operand
+                    neg = not neg
                 if isinstance(t, ast.Compare) and len(t.ops) == 1 and \
-                        isinstance(t.ops[0], (ast.Eq, ast.NotEq)) and \
-                        isinstance(t.left, ast.Name) and isinstance(
-                            t.comparators[0], ast.Constant) and (
-                                in_body or in_else):
-                    eq = isinstance(t.ops[0], ast.Eq)
-                    guards.append((t.left.id, t.comparators[0].value,
-                                   eq == in_body))
+                        isinstance(t.ops[0], (ast.Eq, ast.NotEq)) and (
+                            in_body or in_else):
+                    a, b = t.left, t.comparators[0]
+                    if isinstance(b, ast.Name) and isinstance(
+                            a, ast.Constant):
+                        a, b = b, a
+                    if isinstance(a, ast.Name) and isinstance(
+                            b, ast.Constant):
+                        eq = isinstance(t.ops[0], ast.Eq) != neg
+                        guards.append((a.id, b.value, eq == in_body))
             cur, anc = anc, pm.get(anc)
         for c in ctxs:
             ok = True
